@@ -13,7 +13,7 @@
    on every run by harness/c02.py. *)
 From Coq Require Import ZArith List Permutation Sorting.Sorted.
 From PF Require Import Gen.Tables Lib.ListX Model.Ragged Model.Mapper Model.MapperSpec Model.Converter
-  Model.ConverterSpec Proofs.MapperProofs Proofs.ConverterProofs Legacy.MapperLegacy.
+  Model.ConverterSpec Model.ConverterRun Proofs.MapperProofs Proofs.ConverterProofs Legacy.MapperLegacy.
 Import ListNotations.
 
 (* ---- index labels do not matter ------------------------------------------ *)
@@ -186,6 +186,46 @@ Theorem column_perm_invariant_partial : forall (L : Type) (leqb : L -> L -> bool
 Proof. intros L leqb idx target cols cols' t t' ND P H H'. exact (convert_column_perm _ _ _ _ _ _ ND P H H'). Qed.
 Print Assumptions column_perm_invariant_partial.
 
+(* The missing half is FALSE, of the faithful model and of the code alike (harness/c02.py runs this witness against
+   /repo on every run): a tokenizer that returns dictionaries without keys gives a text_tokenized block without
+   tensors; TensorFrame.num_rows reads the FIRST block, so the conversion raises when that block comes first and
+   succeeds when a numerical column comes first. *)
+Theorem column_perm_success_transfer_refuted :
+  Permutation keyless_cols (rev keyless_cols) /\ NoDup (map fst keyless_cols) /\
+  convert Nat.eqb None (MkFrame [0; 1] keyless_cols) = None /\
+  exists t, convert Nat.eqb None (MkFrame [0; 1] (rev keyless_cols)) = Some t.
+Proof.
+  split; [apply Permutation_rev|]. split; [repeat constructor; simpl; intuition discriminate|].
+  split; [vm_compute; reflexivity | eexists; vm_compute; reflexivity].
+Qed.
+Print Assumptions column_perm_success_transfer_refuted.
+
+(* ---- the converter is an object: later calls ---------------------------------- *)
+(* The frame a call returns shares the converter's _col_names_dict and _merge_feat rewrites it in place
+   (converter_call: the state after a call is the merged dict).  Full statement wanted: every later call on the
+   same frame succeeds and returns a frame equal to the first.  Proved: whenever the later call succeeds it returns
+   exactly the same col_names_dict (same keys, same order), the same y and the same data in every column group --
+   a later call that iterates the merged dict in any other order than it labels it cannot satisfy this.  Missing:
+   that the later call cannot raise, and the dictionary-valued text_tokenized block; both observed by
+   harness/c02.py (later conversions are compared with the materialized frame and evaluated in the model). *)
+Theorem later_call_equal_partial : forall (L : Type) (leqb : L -> L -> bool) target (df : frame L) t t',
+  convert leqb target df = Some t ->
+  convert_from (encode_col leqb (f_index df)) target (f_cols df) (tf_names t) = Some t' ->
+  tf_names t' = tf_names t /\ tf_y t' = tf_y t /\
+  forall k fc fc', sd_get (tf_feats t) k = Some (FCols fc) -> sd_get (tf_feats t') k = Some (FCols fc') -> fc = fc'.
+Proof. intros L leqb target df t t' H H'. exact (second_call_equal _ _ _ _ _ H H'). Qed.
+Print Assumptions later_call_equal_partial.
+
+(* after the first call the converter's state is a fixed point: each of any number of later calls starts from and
+   leaves the first call's merged dict, i.e. is the same computation as the second call *)
+Theorem converter_state_is_fixed_point : forall (L : Type) (leqb : L -> L -> bool) target (df : frame L) t k frames,
+  convert leqb target df = Some t ->
+  converter_calls (encode_col leqb (f_index df)) target (f_cols df) k (tf_names t) = Some frames ->
+  forall t', In t' frames ->
+    convert_from (encode_col leqb (f_index df)) target (f_cols df) (tf_names t) = Some t' /\ tf_names t' = tf_names t.
+Proof. intros L leqb target df t k frames H Hc. exact (later_calls_identical _ _ _ _ _ _ H Hc). Qed.
+Print Assumptions converter_state_is_fixed_point.
+
 (* ---- task type and class count ---------------------------------------------- *)
 (* numerical target -> regression; categorical with exactly 2 listed classes ->
    binary, with more -> multiclass, with fewer -> the assertion fails; any other
@@ -255,3 +295,10 @@ Proof.
   split; [vm_compute; reflexivity|]. split; [discriminate|].
   split; [reflexivity|]. split; intro k; destruct k; reflexivity.
 Qed.
+
+Example later_calls_example :
+  match convert pval_eqb (Some (nm [121])) ex_df with
+  | Some t => converter_calls (encode_col pval_eqb (f_index ex_df)) (Some (nm [121])) ex_cols 3 (tf_names t) = Some [t; t; t]
+  | None => False
+  end.
+Proof. vm_compute. reflexivity. Qed.
